@@ -562,7 +562,17 @@ class PVLParser(object):
                 "an Assignment-Statement."
             )
 
-        self.parse_around_equals(tokens)
+        try:
+            self.parse_around_equals(tokens)
+        except LexerError:
+            raise
+        except ValueError:
+            # The Parameter Name has been consumed, so this cannot be
+            # reported as "not an Assignment-Statement" any more.
+            tokens.throw(
+                ValueError,
+                f'Expecting an equals sign after "{parameter_name}" ',
+            )
 
         try:
             # print(f'parameter name: {parameter_name}')
